@@ -178,6 +178,9 @@ func checkC03(c *Ctx) {
 	}
 	flowC03(c)
 	c.Run.Advisory("R4.wiring", "R4.methods")
+	// that success means "the transformed bytes are stored" is what R4.methods establishes on the whole method (result
+	// stored, no error, for every input of its configurations); the flow reading of the same clause is a second opinion
+	c.Run.Advisory("R6.success-store", "R4.methods")
 	statelessRoots(c, "R7.stateless", "EncryptFRMPayload", "EncryptFOpts", "PHYPayload.EncryptFRMPayload", "PHYPayload.DecryptFRMPayload", "PHYPayload.EncryptFOpts", "PHYPayload.DecryptFOpts")
 }
 
